@@ -56,6 +56,22 @@ def one(d):
             meta['confirmed_by_verifier'] = c
             json.dump(meta, open(mp, 'w'), indent=1)
             return d, 'confirmed'
+        # a test that failed once in the (long, loaded) full run is re-run alone three times: only a test that then passes 3/3
+        # is treated as a flake of the (optimisation-based, randomly initialised) test itself
+        import re
+        failed = sorted(set(re.findall(r'^FAILED (\S+)', t.stdout, flags=re.M)))
+        if failed:
+            oks = []
+            for _ in range(3):
+                r = subprocess.run(['/venv/bin/python', '-m', 'pytest', '-q', '-p', 'no:cacheprovider', '--timeout=1800'] + failed, cwd=scratch, env=env, capture_output=True, text=True)
+                oks.append(r.returncode == 0)
+            if all(oks):
+                c['confirmed'] = True
+                c['repo_tests_rerun'] = {'files': tests, 'deselected_because_not_stable_in_BASELINE': [nodeid(n) for n in UNSTABLE], 'exit': t.returncode,
+                                         'failed_once_then_passed_3_of_3_alone': failed, 'tail': tail}
+                meta['confirmed_by_verifier'] = c
+                json.dump(meta, open(mp, 'w'), indent=1)
+                return d, 'confirmed (flaky test passed 3/3 alone: %s)' % failed
         return d, 'STILL-FAILS ' + tail.replace('\n', ' ')
     finally:
         shutil.rmtree(scratch, ignore_errors=True)
